@@ -392,3 +392,20 @@ prop("C04", level="fault_enumeration",
      min_nontrivial=dict(quick=300, thorough=4000),
      min_counters=dict(triggers_that_happened=dict(quick=300, thorough=6000)),
      assumptions=_fs_assume)
+
+prop("C05", level="fault_enumeration",
+     stages=[dict(pkg="fullstack", test="TestC05", sub="retire", race=True, vary_gomaxprocs=True,
+                  cases=dict(quick=800, thorough=10000), timeout=3600)],
+     technique="runtime monitoring: listener-event monitor (completed / cancelled / network-error counts per request), recording ConnManager (Protect/Unprotect balance), PeerState and Stats snapshots at quiescence, over enumerated request-hook decisions x requestor messages x responder API calls x send-fault placements with scripted raw requestors; Go race detector",
+     level_text=("Raw requestor peers send 1-2 requests to a real responder; enumerated: request-hook decision in {validate, reject, terminate-with-error, pause} x "
+                 "requestor message in {none, cancel, update (accepted / failing)} after the j-th response message x responder API in {none, Pause->Unpause, "
+                 "Pause->Cancel, Cancel, SendUpdate} at block k x send fault in {none, message j fails once, fails until retries are exhausted, connect failure}; "
+                 "every paused response is later unpaused or cancelled by the script. At quiescence (liveness verdicts confirmed over a sustained window) each "
+                 "request has completed<=1, cancelled<=1, not both, at least one outcome, exactly one of completed/cancelled and no network error when no "
+                 "fault was injected, completed status == wire status, no entry in PeerState, balanced Protect/Unprotect, no active/pending task."),
+     level_note="Exclusivity between network-error and the other outcomes is not asserted when a fault was injected. Requests whose data was queued into a self-shut-down queue are a recorded known finding.",
+     rule=("One evaluation = one scenario. Non-trivial = executed to quiescence and decided; distinct by scenario; distinct_sets.scenario_kinds = distinct "
+           "(hook, requestor message, API, fault) combinations."),
+     min_nontrivial=dict(quick=300, thorough=4000),
+     min_counters=dict(injected_faults_hit=dict(quick=80, thorough=1000)),
+     assumptions=_fs_assume)
